@@ -205,6 +205,8 @@ pub fn scripted_bus_error() -> Box<dyn Error + Send + Sync> {
 /// A bus that answers from a script and records everything it is sent.
 #[derive(Debug)]
 pub struct ScriptBus {
+    /// Debug rendering of the last error this bus returned (what the controller's `Bus { source }` must carry)
+    pub last_err: Option<String>,
     pub script: VecDeque<ReplyTok>,
     pub trace: Vec<String>,
     pub msgs: Vec<Message<'static>>,
@@ -230,7 +232,11 @@ impl SignBus for ScriptBus {
                 self.starved = true;
                 Err("script exhausted".into())
             }
-            Some(ReplyTok::Bus) => Err(scripted_bus_error()),
+            Some(ReplyTok::Bus) => {
+                let e = scripted_bus_error();
+                self.last_err = Some(format!("{:?}", e));
+                Err(e)
+            }
             Some(ReplyTok::Panic) => panic!("scripted bus panic"),
             Some(ReplyTok::Echo) => Ok(Some(to_static(&message))),
             Some(ReplyTok::Ok(None)) => Ok(None),
@@ -284,6 +290,7 @@ pub struct CtrlRun {
 
 pub fn ctrl_run(op: &str, t: SignType, a: u16, items: &[Vec<u8>], script: &[ReplyTok]) -> Option<CtrlRun> {
     let bus = Rc::new(RefCell::new(ScriptBus {
+        last_err: None,
         script: script.iter().cloned().collect(),
         trace: vec![],
         msgs: vec![],
@@ -295,10 +302,13 @@ pub fn ctrl_run(op: &str, t: SignType, a: u16, items: &[Vec<u8>], script: &[Repl
         None => "PANIC".to_string(),
         Some(None) => return None,
         Some(Some(Ok(s))) => s,
-        Some(Some(Err(SignError::Bus { .. }))) => {
+        Some(Some(Err(SignError::Bus { source }))) => {
             // The RefCell may still be borrowed if a panic happened; here it did not.
             if bus.borrow().starved {
                 "starved".to_string()
+            } else if bus.borrow().last_err.as_deref().map(|e| e != format!("{:?}", source)).unwrap_or(false) {
+                // "the propagated bus error": the error the bus returned, not a part or a re-wrapping of it
+                "bus-error-altered".to_string()
             } else {
                 "bus".to_string()
             }
@@ -680,7 +690,22 @@ fn run_case_inner(line: &str) -> Option<String> {
         }
         ["page", "new", id, w, h, ops @ ..] => {
             let p = Page::new(PageId(parse_u8(id)?), w.parse().ok()?, h.parse().ok()?);
-            page_ops(p, ops)
+            // the same page obtained through Clone::clone_from into an existing owned page (a smaller and a larger
+            // one) is the same page: run the operations on all three
+            let mut via_small = Page::new(PageId(0xEE), 1, 1);
+            via_small.clone_from(&p);
+            let mut via_large = Page::new(PageId(0xEE), 200, 17);
+            via_large.clone_from(&p);
+            if via_small != p || via_large != p {
+                return Some("DISAGREE-clone-from".to_string());
+            }
+            let r = page_ops(p, ops);
+            if ops.len() <= 64 {
+                if page_ops(via_small, ops) != r || page_ops(via_large, ops) != r {
+                    return Some("DISAGREE-clone-from".to_string());
+                }
+            }
+            r
         }
         ["page", "from", w, h, d, ops @ ..] => {
             let d = parse_item(d)?;
@@ -691,7 +716,21 @@ fn run_case_inner(line: &str) -> Option<String> {
             let owned = Page::from_bytes(w, h, d.clone());
             match (owned, borrowed) {
                 (Ok(p), Ok(q)) => {
-                    if p != q {
+                    // the same bytes viewed at every alignment modulo 8 inside a larger buffer: still the same page
+                    let mut misaligned = false;
+                    if d.len() <= 4096 {
+                        let mut big = vec![0xC3u8; d.len() + 8];
+                        for k in 0..8 {
+                            big[k..k + d.len()].copy_from_slice(&d);
+                            match Page::from_bytes(w, h, &big[k..k + d.len()]) {
+                                Ok(v) if v == p && p == v => {}
+                                _ => misaligned = true,
+                            }
+                        }
+                    }
+                    if misaligned {
+                        "DISAGREE-equality-depends-on-alignment".to_string()
+                    } else if p != q {
                         "DISAGREE-owned-borrowed".to_string()
                     } else {
                         // Run the ops on the borrowed page (copy-on-write path) made 'static by leaking
@@ -753,6 +792,7 @@ fn run_case_inner(line: &str) -> Option<String> {
             let t = *TYPES.get(t.parse::<usize>().ok()?)?;
             let items = parse_items(items)?;
             let bus = Rc::new(RefCell::new(ScriptBus {
+                last_err: None,
                 script: script.iter().cloned().collect(),
                 trace: vec![],
                 msgs: vec![],
@@ -789,6 +829,14 @@ fn run_case_inner(line: &str) -> Option<String> {
         ["io", "write", a, ty, d, "|", evs @ ..] => {
             let f = mk_frame(parse_u16(a)?, parse_u8(ty)?, parse_hex(d)?)?;
             crate::iomock::io_write(&f, crate::iomock::parse_wevs(evs)?)
+        }
+        ["serialmtu", rest @ ..] => {
+            let g: Vec<&[&str]> = rest.split(|t| *t == "|").collect();
+            if g.len() != 3 {
+                return None;
+            }
+            let msgs: Vec<Message<'static>> = g[0].iter().map(|t| parse_msg(t)).collect::<Option<_>>()?;
+            crate::iomock::serial_multi_case_unwinding(&msgs, crate::iomock::parse_revs(g[1])?, crate::iomock::parse_wevs(g[2])?)?
         }
         ["serialmte", wms, rms, rest @ ..] => {
             // timed multi-exchange run on a port that is a little slow ALL the time: every write call blocks wms ms,
